@@ -65,7 +65,7 @@ func setupFontDir(t *testing.T, scratch, repo string) string {
 	if err := os.MkdirAll(dir, 0o755); err != nil {
 		t.Fatal(err)
 	}
-	for _, n := range []string{"DejaVuSerif.ttf", "EBGaramond12-Regular.otf", "Dynalight-Regular.otf"} {
+	for _, n := range []string{"DejaVuSerif.ttf", "EBGaramond12-Regular.otf"} {
 		dst := filepath.Join(dir, n)
 		if _, err := os.Stat(dst); err == nil {
 			continue
@@ -160,6 +160,10 @@ func TestWorker(t *testing.T) {
 	}
 	h := &Harness{Resources: filepath.Join(*fRepo, "resources"), NSites: *fSites, KeepTrace: *fTrace}
 	h.FontDir = setupFontDir(t, scratch, *fRepo)
+	h.Scratch = scratch
+	if err := SetupSysDirs(scratch, h.Resources); err != nil {
+		t.Fatal(err)
+	}
 	h.Progress = func(run int, phase string) {
 		progRun.Store(int64(run))
 		progPhase.Store(phase)
@@ -210,6 +214,13 @@ func TestWorker(t *testing.T) {
 		}
 		if rep.Races > 0 {
 			rep.RaceFrom, rep.RaceTo = r0, raceLogSize()
+		}
+		if oc.Sys != nil {
+			// linearizability of the recorded system-font-cache history (outside the bubble)
+			if ok, _, detail := CheckSysHistory(oc.Sys); !ok {
+				rep.Violations = append(rep.Violations, Violation{Class: "linearizability", Op: "system-font-cache",
+					Detail: "no sequential order of the calls explains the results: " + detail, Sig: "linearizability:system-font-cache"})
+			}
 		}
 		return rep, oc
 	}
